@@ -169,6 +169,24 @@ fn is_ws(c: char) -> bool {
     c == ' ' || c == '\t' || c == '\n' || c == '\r'
 }
 
+/// column unit of the lexer under test, calibrated on one input: Some(0) characters, Some(1) bytes, Some(2) UTF-16
+/// units; None when the calibration input does not lex as expected (then every unit is accepted per token)
+fn column_unit() -> Option<u8> {
+    static U: std::sync::OnceLock<Option<u8>> = std::sync::OnceLock::new();
+    *U.get_or_init(|| {
+        let toks = crate::fw::guard(|| garnish_lang_compiler::lex::lex("\"é😀\" 1")).ok()?.ok()?;
+        let first = toks.first()?.get_column();
+        let last = toks.iter().find(|t| t.get_text() == "1")?.get_column();
+        // the text before `1` is: quote, é, 😀, quote, space
+        match last.checked_sub(first)? {
+            5 => Some(0),
+            9 => Some(1),
+            6 => Some(2),
+            _ => None,
+        }
+    })
+}
+
 fn is_ident_char(c: char) -> bool {
     c.is_alphanumeric() || c == '_' || c == ':'
 }
@@ -223,7 +241,9 @@ fn shape_ok(t: TokenType, text: &str) -> bool {
         TokenType::InfixIdentifier => text.len() >= 2 && text.starts_with('`') && text.ends_with('`') && text[1..text.len() - 1].chars().all(is_ident_char),
         TokenType::CharList => quoted_shape(text, '"'),
         TokenType::ByteList => quoted_shape(text, '\''),
-        TokenType::Whitespace | TokenType::Subexpression => text.chars().all(is_ws),
+        TokenType::Whitespace => text.chars().all(is_ws),
+        // a separator made of layout is a blank line: it holds at least two newlines
+        TokenType::Subexpression => text.chars().all(is_ws) && text.chars().filter(|c| *c == '\n' || *c == '\r').count() >= 2, // (how a carriage return counts is not settled)
         TokenType::Annotation => text.starts_with('@') && text[1..].chars().all(|c| c.is_alphanumeric() || c == '_'),
         TokenType::LineAnnotation => {
             let n = text.chars().count();
@@ -469,11 +489,19 @@ pub fn judge(input: &str, toks: &[LexerToken]) -> Vec<Fault> {
                 break;
             }
             let gc = t.get_column();
+            // the unit the lexer counts columns in is calibrated once (characters, bytes or UTF-16 units are all
+            // accepted, but it has to be one unit for every token of every input)
+            let cols: Vec<usize> = match column_unit() {
+                Some(0) => vec![col_c],
+                Some(1) => vec![col_b],
+                Some(_) => vec![col_u],
+                None => vec![col_c, col_b, col_u],
+            };
             let col_ok = match dcol {
                 None => {
                     let mut found = None;
                     for d in [0usize, 1] {
-                        if gc == col_c + d || gc == col_b + d || gc == col_u + d {
+                        if cols.iter().any(|c| gc == c + d) {
                             found = Some(d);
                             break;
                         }
@@ -481,7 +509,7 @@ pub fn judge(input: &str, toks: &[LexerToken]) -> Vec<Fault> {
                     dcol = found;
                     found.is_some()
                 }
-                Some(d) => gc == col_c + d || gc == col_b + d || gc == col_u + d,
+                Some(d) => cols.iter().any(|c| gc == c + d),
             };
             if !col_ok {
                 push_fault(
@@ -922,7 +950,7 @@ impl Property for C13 {
             assumptions: vec![
                 "only Ok results are judged: the statement is conditional on `lex` succeeding; an Err is never a violation here, and a panic of `lex` is counted (lex_panic_not_judged) but left to the totality property".into(),
                 "'a character that cannot start or continue any token makes lex fail' is checked through its consequence for Ok results: the character must be inside some token (lossless) and no token class admits it (class shape)".into(),
-                "positions: line = number of LF before the token's first character, column = distance from the last LF counted in characters, bytes or UTF-16 units (all three accepted), base 0 or base 1 accepted as long as one base is used for every token of the input; inputs containing CR are not judged for positions; inputs that are not lossless are not judged for positions".into(),
+                "positions: line = number of LF before the token's first character, column = distance from the last LF counted in characters, bytes or UTF-16 units - whichever the lexer uses on the calibration input \"é😀\" 1, the same unit for every token of every input -, base 0 or base 1 accepted as long as one base is used for every token of the input; inputs containing CR are not judged for positions; inputs that are not lossless are not judged for positions".into(),
                 "operator table = the 60 spellings handed to create_operator_tree in Lexer::new (transcribed); longest match for an operator token = no longer table spelling starts at the same character. A literal is only required not to be directly followed by a character of its own class (digit/letter/underscore after a number; identifier character after an identifier, symbol or suffix identifier); '.digits' after a value may be Period+Number or a float, both accepted (float/period rule)".into(),
                 "class shapes are the widest the code admits: numbers = letters, digits, underscores and at most one period, starting with a digit or period; identifiers/symbols = letters, digits, '_' and ':'; char/byte lists = N quotes ... N quotes with N = 1 or N >= 3, or exactly two quotes; whitespace and sub-expression tokens = space, tab, LF, CR only; annotations = '@' + letters/digits/underscore; line annotations = '@@' up to and including one LF".into(),
                 "blank line = a maximal run of space/tab/LF characters, outside char lists, byte lists and annotations, that contains at least two LF; it must contain the start of at least one Subexpression token. Runs broken by CR, or whose first LF ends a line annotation, are not judged. A Subexpression token where there is no blank line is not judged (statement silent)".into(),
